@@ -11,3 +11,5 @@ import Reamber.Props.C12
 #print axioms Reamber.Stack.spec_other_columns
 #print axioms Reamber.Stack.spec_nonmember
 #print axioms Reamber.Stack.stale_stacker_counterexample
+#print axioms Reamber.Stack.mapset_chart_assign
+#print axioms Reamber.Stack.mapset_broadcast
